@@ -1394,3 +1394,31 @@ package analysis
 //@   loop 2: invariant forall p in seen :: inStrs(result, fmt.Sprintf("%s %s", strings.ToUpper(key1), p))
 //@   loop 2: invariant forall i in 0..len(result) :: exists M in dom(s.operations) :: exists p in dom(s.operations[M]) :: result[i] == fmt.Sprintf("%s %s", strings.ToUpper(M), p)
 //@   loop 2: invariant key1 in dom(s.operations) && v == s.operations[key1] && method == key1
+
+// ---------------------------------------------------------------- analyzer.go: effective parameters (C15)
+
+//@ func fieldNameFromParam(param)
+//@   pure
+//@   assumed
+//@ func mapKeyFromParam(param)
+//@   pure
+//@   assumed
+
+// an entry (k, v) of the result comes from the input parameter p: p itself when it is not a $ref, else the parameter
+// obtained by resolving p's $ref in the document (never the unresolved placeholder)
+//@ fun entryFor(s *Spec, p spec.Parameter, k string, v spec.Parameter) bool = (p.Ref.String() == "" && v == p && k == mapKeyFromParam(p)) || (p.Ref.String() != "" && k == mapKeyFromParam(v) && ptrGets(*p.Ref.GetPointer(), box(s.spec), box(v)))
+//@ fun allInline(ps []spec.Parameter) bool = forall i in 0..len(ps) :: ps[i].Ref.String() == ""
+
+//@ func (s *Spec) paramsAsMap(parameters, res, callmeOnError)
+//@   requires s != nil && res != nil
+//@   modifies map res
+//@   panics when callmeOnError == nil
+//@   ensures forall k in dom(res) :: (old(k in dom(res)) && res[k] == old(res[k])) || (exists i in 0..len(parameters) :: entryFor(s, parameters[i], k, res[k]))
+//@   ensures forall k string :: old(k in dom(res)) ==> k in dom(res)
+//@   ensures allInline(parameters) ==> forall i in 0..len(parameters) :: mapKeyFromParam(parameters[i]) in dom(res) && (exists j in i..len(parameters) :: res[mapKeyFromParam(parameters[i])] == parameters[j] && mapKeyFromParam(parameters[j]) == mapKeyFromParam(parameters[i]))
+//@   ensures allInline(parameters) ==> forall k in dom(res) :: old(k in dom(res)) && res[k] == old(res[k]) || (exists i in 0..len(parameters) :: k == mapKeyFromParam(parameters[i]))
+//@   loop 1: modifies map res
+//@   loop 1: invariant forall k in dom(res) :: (old(k in dom(res)) && res[k] == old(res[k])) || (exists i in 0..idx :: entryFor(s, parameters[i], k, res[k]))
+//@   loop 1: invariant forall k string :: old(k in dom(res)) ==> k in dom(res)
+//@   loop 1: invariant allInline(parameters) ==> forall i in 0..idx :: mapKeyFromParam(parameters[i]) in dom(res) && (exists j in i..idx :: res[mapKeyFromParam(parameters[i])] == parameters[j] && mapKeyFromParam(parameters[j]) == mapKeyFromParam(parameters[i]))
+//@   loop 1: invariant allInline(parameters) ==> forall k in dom(res) :: old(k in dom(res)) && res[k] == old(res[k]) || (exists i in 0..idx :: k == mapKeyFromParam(parameters[i]))
